@@ -883,9 +883,20 @@ def dup_cases(ctx):
         rls = readable_levels(case)
         assert len(set(rls)) < len(rls)
         ctx.dist('duplicate readable level: merged levels', (len(case['tree']['hierarchy']), tuple(case['dup_levels'])))
+        try:
+            obs_ = run_real(case, scratch, i)
+        except RuntimeError as e:
+            if 'the same name' in str(e):
+                # since /repo 9eca1ef (F31) the validator refuses a hierarchy_mapper that gives two levels one name
+                ctx.dist('duplicate readable level: outcome', 'refused by validate_taxonomy_tree')
+                ctx.count(('dup-refused', i), nontrivial=True)
+                continue
+            raise
+        ctx.dist('duplicate readable level: outcome', 'ACCEPTED')
         cases.append(case)
-        observed.append(run_real(case, scratch, i))
-    judge(ctx, cases, observed, stream='dup')
+        observed.append(obs_)
+    if cases:
+        judge(ctx, cases, observed, stream='dup')
 
 
 # ------------------------------------------------------------------ a NaN confidence
